@@ -43,7 +43,7 @@ func GenC14(t *rapid.T) *C14Case {
 		c.Kinds = append(c.Kinds, alphabet[drawIdx(t, nk, "k")])
 	}
 	if oneIn(t, 3, "mutate") {
-		ops := []string{"add", "insert", "replace", "delete", "pop", "reverse", "set", "unset"}
+		ops := []string{"add", "insert", "replace", "delete", "pop", "reverse", "set", "unset", "clear"}
 		for i, k := 0, drawInt(t, 1, 3, "nmuts"); i < k; i++ {
 			c.Muts = append(c.Muts, ViewMut{Op: ops[drawIdx(t, len(ops), "mop")], A: genRaw(t), Kind: int(alphabet[drawIdx(t, nk, "mk")])})
 		}
@@ -234,6 +234,12 @@ func checkListViews(c *C14Case, st *Stats) error {
 			l.Pop()
 		case "reverse":
 			l.Reverse()
+		case "clear":
+			// emptied and refilled with the same elements plus one
+			old := l.Slice()
+			l.Clear()
+			l.Add(old...)
+			l.Add(fresh)
 		default:
 			continue
 		}
@@ -536,6 +542,14 @@ func checkObjectViews(c *C14Case, st *Stats) error {
 				continue
 			}
 			o.Unset(keys[m.A%len(keys)])
+		case "clear", "reverse":
+			// emptied and refilled under the same keys (plus one new key)
+			d := o.Dict()
+			o.Clear()
+			for _, k := range keys {
+				o.Set(k, d[k])
+			}
+			o.Set(fmt.Sprintf("New%d", mi), fresh)
 		default:
 			continue
 		}
